@@ -47,7 +47,8 @@ F32 = {"stl", "ply", "glb", "gltf"}
 EXACT = {"stl_ascii", "3mf", "dict", "dict64"}
 DIGITS = {"obj": 8, "off": 10}
 INDEXED = {"ply", "off", "obj", "glb", "gltf", "3mf", "dict", "dict64"}  # dae goes through pycollada which re-indexes
-SCENE_FORMATS = ["glb", "gltf", "3mf"]  # the DAE exporter is registered for single meshes only (scene.export raises ValueError)
+SCENE_FORMATS = ["glb", "gltf", "3mf"]
+FLAT_SCENE_FORMATS = ["stl", "ply"]  # export_scene bakes scene.to_mesh() for these  # the DAE exporter is registered for single meshes only (scene.export raises ValueError)
 
 
 class DictResolver(trimesh.resolvers.Resolver):
@@ -322,6 +323,15 @@ def build_scene(spec):
     tet = trimesh.Trimesh(*gmesh.build({"parts": [{"kind": "tetra"}]}), process=False)
     tet.vertices += rs.uniform(-1e-2, 1e-2, tet.vertices.shape)
     mats = [np.array(m, dtype=np.float64) for m in spec["edges"]]
+    shape = spec.get("shape", "full")
+    if shape == "single":
+        # one geometry, one node: the placement lives in the node's transform only
+        s.add_geometry(box, node_name="n0", geom_name="box", transform=mats[0])
+        return s
+    if shape == "single_under_parent":
+        s.graph.update(frame_to="p", frame_from=s.graph.base_frame, matrix=mats[0])
+        s.add_geometry(tet, node_name="n0", geom_name="tet", parent_node_name="p", transform=mats[1])
+        return s
     if spec.get("empty_first"):
         # an empty geometry referenced by a node, stored before the others
         s.add_geometry(trimesh.Trimesh(), node_name="ne", geom_name="aaa_empty", transform=mats[1])
@@ -349,7 +359,7 @@ def b_scene(case, ctx):
         s = build_scene(case["scene"])
         fmt = case["fmt"]
         sig = f"C08.scene|{fmt}"
-        ctx.note(nontrivial=True, cls=f"scene:{fmt}")
+        ctx.note(nontrivial=True, cls=[f"scene:{fmt}", f"scene:shape={case['scene'].get('shape', 'full')}"])
         want = placed(s)
         h0 = s.__hash__()
         g0 = {k: source_state(g) for k, g in s.geometry.items()}
@@ -357,6 +367,18 @@ def b_scene(case, ctx):
         data = s.export(file_type=fmt, **kw)
         check(s.__hash__() == h0 and {k: source_state(g) for k, g in s.geometry.items()} == g0, sig + "|export_modified_source", "")
         loaded = do_load(data, fmt, case["entry"], False)
+        if fmt in FLAT_SCENE_FORMATS:
+            # formats without a scene graph store the baked triangles of every instance in one mesh
+            geoms = [g for g, _ in flatten(loaded)]
+            check(all(isinstance(g, trimesh.Trimesh) for g in geoms), sig + "|loaded_type", str([type(g).__name__ for g in geoms]))
+            gt = np.vstack([np.asarray(g.triangles) for g in geoms]) if geoms else np.zeros((0, 3, 3))
+            w = np.vstack(want) if want else np.zeros((0, 3, 3))
+            check(gt.shape == w.shape, sig + "|triangle_count", f"{gt.shape} vs {w.shape}")
+            scale = max(1.0, np.abs(w).max())
+            key = lambda a: a[np.lexsort(np.round(a.reshape((-1, 9)) / (1e-4 * scale)).T[::-1])]  # noqa
+            d = np.abs(key(gt) - key(w)).max() if len(w) else 0.0
+            check(d <= 4e-6 * scale, sig + "|placement", f"baked triangles differ from the placed source triangles by {d:.3g} (scale {scale:.3g})")
+            return
         check(isinstance(loaded, trimesh.Scene), sig + "|not_a_scene", type(loaded).__name__)
         got = placed(loaded)
         check(len(got) == len(want), sig + "|instance_count", f"{len(got)} instances loaded, {len(want)} exported")
@@ -401,16 +423,17 @@ def build_voxel(spec):
     from trimesh.voxel import encoding as E
 
     n = spec["n"]
+    shp = tuple(spec.get("shape") or (n, n, n))
     rs = np.random.RandomState(spec["seed"])
     fill = spec["fill"]
     if fill[0] == "random":
-        dense = rs.rand(n, n, n) < fill[1]
+        dense = rs.rand(*shp) < fill[1]
     elif fill[0] == "slab":
-        dense = np.zeros((n, n, n), dtype=bool)
-        dense[fill[1] : fill[1] + fill[2]] = True
+        dense = np.zeros(shp, dtype=bool)
+        dense[fill[1] % shp[0] : fill[1] % shp[0] + fill[2]] = True
     else:
         # explicit run lengths over the flattened grid, alternating empty / filled
-        flat = np.zeros(n**3, dtype=bool)
+        flat = np.zeros(int(np.prod(shp)), dtype=bool)
         i, val = 0, bool(fill[2])
         for ln in fill[1]:
             flat[i : i + ln] = val
@@ -418,7 +441,7 @@ def build_voxel(spec):
             val = not val
             if i >= len(flat):
                 break
-        dense = flat.reshape((n, n, n))
+        dense = flat.reshape(shp)
     if spec["backing"] == "dense":
         enc = E.DenseEncoding(dense)
     elif spec["backing"] == "rle":
@@ -426,7 +449,12 @@ def build_voxel(spec):
     else:
         enc = E.BinaryRunLengthEncoding.from_dense(dense.reshape(-1)).reshape(dense.shape)
     T = np.eye(4)
-    T[:3, :3] *= spec["scale"]
+    if spec.get("shape"):
+        # a non-cubic grid is exportable when its extent is the same along every axis: pitch_i = L / (n_i - 1)
+        L = spec["scale"] * (max(shp) - 1)
+        T[:3, :3] = np.diag([L / (k - 1) for k in shp])
+    else:
+        T[:3, :3] *= spec["scale"]
     T[:3, 3] = spec["offset"]
     return trimesh.voxel.VoxelGrid(enc, transform=T), dense, T
 
@@ -439,7 +467,7 @@ def b_voxel(case, ctx):
     edges = np.flatnonzero(np.diff(flat.astype(np.int8))) + 1
     runs = np.diff(np.concatenate(([0], edges, [len(flat)])))
     longest = int(runs.max()) if len(runs) else 0
-    ctx.note(nontrivial=bool(dense.any() and not dense.all()), cls=[f"voxel:{case['spec']['backing']}:{ao}", "voxel:run>=510" if longest >= 510 else "voxel:run>=255" if longest >= 255 else "voxel:short_runs"]
+    ctx.note(nontrivial=bool(dense.any() and not dense.all()), cls=[f"voxel:{case['spec']['backing']}:{ao}", "voxel:noncubic" if len(set(dense.shape)) > 1 else "voxel:cubic", "voxel:run>=510" if longest >= 510 else "voxel:run>=255" if longest >= 255 else "voxel:short_runs"]
              + (["voxel:run_is_multiple_of_255"] if len(runs) and bool(((runs % 255) == 0).any()) else []))
     before = (np.array(vg.matrix).tobytes(), np.array(vg.transform).tobytes())
     kw = {} if ao == "xzy" and case.get("default_kw") else {"axis_order": ao}
@@ -464,7 +492,7 @@ def b_voxel(case, ctx):
         bad = np.argwhere(got != dense)
         raise Violation(f"C08.voxel|cells|axis_order={ao}", f"{len(bad)} of {dense.size} cells differ, first {bad[0].tolist()}: loaded {bool(got[tuple(bad[0])])}; longest run {longest}")
     check(int(loaded.filled_count) == int(dense.sum()), "C08.voxel|filled_count", f"{loaded.filled_count} vs {int(dense.sum())}")
-    tolT = 16 * np.finfo(np.float64).eps * max(1.0, np.abs(T).max()) * dense.shape[0]
+    tolT = 16 * np.finfo(np.float64).eps * max(1.0, np.abs(T).max()) * max(dense.shape)
     check(np.abs(np.asarray(loaded.transform) - T).max() <= tolT, "C08.voxel|transform", f"{np.asarray(loaded.transform).tolist()} vs {T.tolist()}")
     # the filled cells sit where they sat (as a set: the point order follows the storage order)
     if dense.any():
@@ -622,8 +650,10 @@ def points_case(draw):
 @st.composite
 def scene_case(draw):
     edges = [draw(gm.matrix(classes=["rigid", "translation", "rotation", "similarity"], tscale=5.0))["M"] for _ in range(4)]
-    fmt = draw(st.sampled_from(SCENE_FORMATS))
-    return {"scene": {"seed": draw(st.integers(0, 10**6)), "edges": edges, "empty_first": draw(st.booleans())}, "fmt": fmt, "kw": draw(st.sampled_from(MESH_FORMATS[fmt])), "entry": draw(st.sampled_from(["load", "load_scene"]))}
+    fmt = draw(st.sampled_from(SCENE_FORMATS + FLAT_SCENE_FORMATS))
+    kw = draw(st.sampled_from(MESH_FORMATS[fmt])) if fmt in SCENE_FORMATS else {}
+    shape = draw(st.sampled_from(["full", "full", "single", "single_under_parent"]))
+    return {"scene": {"seed": draw(st.integers(0, 10**6)), "edges": edges, "empty_first": draw(st.booleans()), "shape": shape}, "fmt": fmt, "kw": kw, "entry": draw(st.sampled_from(["load", "load_scene"]))}
 
 
 @st.composite
@@ -638,8 +668,11 @@ def voxel_case(draw):
     else:
         # run lengths around the one-byte count limit of the format and its multiples
         fill = ["runs", draw(st.lists(st.one_of(st.integers(1, 40), st.sampled_from([254, 255, 256, 509, 510, 511, 765, 1020, 1275])), min_size=1, max_size=30)), draw(st.integers(0, 1))]
+    shape = None
+    if draw(st.integers(0, 2)) == 0:
+        shape = [draw(st.integers(2, 9)) for _ in range(3)]
     return {
-        "spec": {"n": n, "seed": draw(st.integers(0, 10**6)), "fill": fill, "backing": draw(st.sampled_from(["dense", "rle", "brle"])),
+        "spec": {"n": n, "shape": shape, "seed": draw(st.integers(0, 10**6)), "fill": fill, "backing": draw(st.sampled_from(["dense", "rle", "brle"])),
                  "scale": draw(st.sampled_from([1.0, 0.37, 25.0, 1e-3])), "offset": [draw(_f(-100, 100)) for _ in range(3)]},
         "axis_order": draw(st.sampled_from(["xzy", "xyz"])),
         "default_kw": draw(st.booleans()),
@@ -697,4 +730,4 @@ def s_voxel_path(ctx):
 
 
 REQUIRED_CLASSES["C08"] = ["fmt:stl", "fmt:ply", "fmt:obj", "fmt:glb", "fmt:gltf", "fmt:3mf", "fmt:dae", "fmt:off", "fmt:dict64", "fmt:stl_ascii", "scene:glb", "scene:3mf", "points:xyz:colors=True", "points:xyz:colors=False",
-                           "voxel:run>=510", "voxel:run_is_multiple_of_255", "path:dxf", "path:svg", "path:dict", "path:arc", "path:circle"]
+                           "scene:stl", "scene:ply", "scene:shape=single", "scene:shape=single_under_parent", "voxel:noncubic", "voxel:run>=510", "voxel:run_is_multiple_of_255", "path:dxf", "path:svg", "path:dict", "path:arc", "path:circle"]
